@@ -1,0 +1,26 @@
+//go:build verif
+
+// Machine-checked contracts for package utils (comment-only; see /verif/DESIGN.md).
+// Checked by /verif/bin/govc against the SSA of the real functions on every run.
+
+package utils
+
+//@ func Txn
+//@   requires cond != nil
+//@   ensures[C17.cond-once]     called(cond) == 1
+//@   ensures[C17.then-iff]      called(then) == ((res(cond) == nil && then != nil) ? 1 : 0)
+//@   ensures[C17.then-after]    called(then) == 1 ==> before(cond, then)
+//@   ensures[C17.rollback-iff]  called(rollback) == ((rollback != nil && (res(cond) != nil || (called(then) == 1 && res(then) != nil))) ? 1 : 0)
+//@   ensures[C17.rollback-last] called(rollback) == 1 ==> before(cond, rollback) && before(then, rollback)
+//@   ensures[C17.rollback-flag] called(rollback) == 1 ==> arg(rollback, 1) == (res(cond) != nil)
+//@   ensures[C17.rollback-ctx]  called(rollback) == 1 ==> root(arg(rollback, 0)) == NEVER
+//@   ensures[C17.result]        txnErr == (res(cond) != nil ? res(cond) : (called(then) == 1 ? res(then) : nil))
+//@   ensures[C17.then-ctx]      called(then) == 1 && rollback == nil ==> root(arg(then, 0)) == NEVER
+//@   ensures[C17.cond-ctx]      root(arg(cond, 0)) == root(ctx)
+
+//@ func NewInheritCtx
+//@   ensures[C17.inherit] result != nil && root(result) == NEVER
+
+//@ func InheritTracingInfo
+//@   ensures[C17.inherit-root] root(result) == root(newCtx)
+//@   ensures[C17.inherit-nonnil] newCtx != nil ==> result != nil
